@@ -788,6 +788,17 @@ func (x *vc) stdlibModel(fr *frame, st *state, callee *ssa.Function, args []Val,
 		return r, true
 	case "strconv.Itoa", "strconv.FormatInt", "strconv.FormatFloat", "strconv.Quote", "fmt.Sprintf", "fmt.Sprint", "fmt.Sprintln":
 		return x.freshVal("fmt", resT, st), true
+	case "strconv.ParseInt":
+		// documented: the result fits the requested bit size (0 means int); on error the value is still in that range
+		r := x.freshResult(st, resT, "parseint")
+		if len(r.Tuple) == 2 && len(args) == 3 {
+			x.trusted["strconv.ParseInt: the result fits the requested bit size (documented)"] = true
+			for _, bs := range []struct{ bits, lo, hi string }{{"8", "(- 128)", "127"}, {"16", "(- 32768)", "32767"}, {"32", "(- 2147483648)", "2147483647"}} {
+				x.assume(st.guard, implies(eq(args[2].T, bs.bits), and(app("<=", bs.lo, r.Tuple[0].T), app("<=", r.Tuple[0].T, bs.hi))))
+			}
+			x.assume(st.guard, implies(not(eq(app("itag", r.Tuple[1].T), "0")), not(eq(app("ival", r.Tuple[1].T), "0"))))
+		}
+		return r, true
 	case "fmt.Errorf", "errors.New":
 		r := x.freshVal("err", resT, st)
 		x.assume(st.guard, not(eq(app("itag", r.T), "0")))
